@@ -172,7 +172,10 @@ pub fn eval_from_bytes_bitcoin(bytes: &[u8], version_id: u8) -> EvaluatedScript 
         EvaluatedScript::new(address, ScriptPattern::Pay2Taproot)
     } else if script.is_witness_program() {
         EvaluatedScript::new(address, ScriptPattern::WitnessProgram)
-    } else if script.instructions().take(20).count() < 20 && script.is_multisig() {
+    } else if script.instructions().take(20).count() < 20
+        && script.is_multisig()
+        && has_key_count(script)
+    {
         // A bare multisig has at most 19 instructions (OP_m, 16 keys, OP_n, OP_CHECKMULTISIG).
         // Longer scripts are rejected up front: rust-bitcoin counts the pushes in a u8, which
         // overflows (panic in debug builds, wrong verdict in release builds) after 255 pushes.
@@ -180,6 +183,16 @@ pub fn eval_from_bytes_bitcoin(bytes: &[u8], version_id: u8) -> EvaluatedScript 
     } else {
         EvaluatedScript::new(address, ScriptPattern::NotRecognised)
     }
+}
+
+/// rust-bitcoin's `is_multisig` accepts any opcode between the keys and OP_CHECKMULTISIG
+/// (e.g. `OP_2 <key> <key> <key> OP_NOP OP_CHECKMULTISIG`); a bare m-of-n multisig carries
+/// the key count OP_1..OP_16 there. Only called for scripts with less than 20 instructions.
+fn has_key_count(script: &Script) -> bool {
+    let ops: Vec<_> = script.instructions().collect();
+    let pushnums = opcodes::all::OP_PUSHNUM_1.to_u8()..=opcodes::all::OP_PUSHNUM_16.to_u8();
+    ops.len() >= 2
+        && matches!(&ops[ops.len() - 2], Ok(Instruction::Op(op)) if pushnums.contains(&op.to_u8()))
 }
 
 /// Workaround to parse address from p2pk scripts
